@@ -16,6 +16,7 @@
 From Coq Require Import ZArith List Bool Arith Lia Field Permutation QArith Qcanon.
 From V Require Import Base.FieldSig Base.ExecQ.
 From V Require Import Model.SurveyMachine Model.SurveyMachineExec Proofs.SurveyMachine Proofs.SurveyLabels.
+From V Require Import Model.SurveyFinite Proofs.SurveyFinite.
 Import ListNotations.
 Close Scope Qc_scope.
 Close Scope Q_scope.
@@ -266,6 +267,78 @@ Section C13.
     intros HI HJ HK.
     exact (misfit_of_perm Fth _ _ (terms_idx_perm ob sy sd Is Is' Js Js' Ks Ks' HI HJ HK)).
   Qed.
+  (* ==== round 6: the memoised finite mask (Survey.isfinite / finite_data),
+     queries between data changes, further routes that change the NaN pattern
+     of data.observed (Model/SurveyFinite.v).  [xworld] = survey machine + the
+     memo survey._isfinite of every survey. *)
+
+  (* a query (isfinite, finite_data, size, count, misfit) changes nothing in
+     the survey machine: no datum, no setting, no survey *)
+  Theorem query_is_read_only inplace s q (xw : @xworld F) :
+    base (fst (xstep ltb off2 inplace (XQuery s q) xw)) = base xw.
+  Proof. exact (query_changes_nothing ltb off2 inplace s q xw). Qed.
+
+  (* every other operation neither reads nor writes the memo *)
+  Theorem operations_ignore_memo inplace (o : @xop F) (xw xw' : @xworld F) :
+    is_query o = false -> base xw = base xw' ->
+    base (fst (xstep ltb off2 inplace o xw)) = base (fst (xstep ltb off2 inplace o xw')) /\
+    snd (xstep ltb off2 inplace o xw) = snd (xstep ltb off2 inplace o xw') /\
+    memo (fst (xstep ltb off2 inplace o xw)) = memo xw.
+  Proof. exact (nonquery_ignores_memo ltb off2 inplace o xw xw'). Qed.
+
+  (* ALL histories: the survey machine reached is the one reached by the
+     history with its queries removed, from any memo *)
+  Theorem history_queries_erased inplace (ops : list (@xop F)) (xw xw' : @xworld F) :
+    base xw = base xw' ->
+    base (xrun ltb off2 inplace ops xw) = base (xrun ltb off2 inplace (erase_queries ops) xw').
+  Proof. exact (xrun_queries_erased ltb off2 inplace ops xw xw'). Qed.
+
+  (* the misfit query does not consult the memo ... *)
+  Theorem misfit_does_not_consult_memo inplace s (xw xw' : @xworld F) :
+    base xw = base xw' ->
+    snd (xstep ltb off2 inplace (XQuery s QMisfit) xw) =
+    snd (xstep ltb off2 inplace (XQuery s QMisfit) xw').
+  Proof. exact (misfit_query_ignores_memo ltb off2 inplace s xw xw'). Qed.
+
+  (* ... so after ANY history the misfit is the one of the history without
+     queries, started without memo *)
+  Theorem misfit_unaffected_by_queries inplace (ops : list (@xop F)) (xw : @xworld F) s :
+    xmisfit (xrun ltb off2 inplace ops xw) s =
+    xmisfit (xrun ltb off2 inplace (erase_queries ops) (mkX (base xw) nil)) s.
+  Proof. exact (misfit_unaffected_by_queries_all ltb off2 inplace ops xw s). Qed.
+
+  (* the misfit is a function of the CURRENT observed / synthetic / std^2
+     arrays only (any two worlds, surveys, histories) *)
+  Theorem misfit_current_arrays (w w' : @world F) (sv sv' : @survey F) syn syn' r r' :
+    shape sv = shape sv' ->
+    deref (hdat w) (obs sv) = deref (hdat w') (obs sv') ->
+    lookup syn (named sv) = Some r -> lookup syn' (named sv') = Some r' ->
+    deref (hdat w) r = deref (hdat w') r' ->
+    std2 w sv = std2 w' sv' ->
+    misfit w sv syn = misfit w' sv' syn'.
+  Proof. exact (misfit_current_arrays_all w w' sv sv' syn syn' r r'). Qed.
+
+  (* ... namely half the sum over the finite mask RECOMPUTED from the current
+     observed data *)
+  Theorem misfit_sums_over_current_mask (w : @world F) (sv : @survey F) syn r sd n1 n2 n3 :
+    shape sv = (n1, n2, n3) -> std2 w sv = Some sd -> lookup syn (named sv) = Some r ->
+    misfit w sv syn =
+    Some (misfit_of (terms_masked (cur_mask (deref (hdat w) (obs sv)) n1 n2 n3)
+                                  (deref (hdat w) (obs sv)) (deref (hdat w) r) sd
+                                  (seq 0 n1) (seq 0 n2) (seq 0 n3))).
+  Proof. exact (misfit_over_current_mask w sv syn r sd n1 n2 n3). Qed.
+
+  (* settings frame and invariants over the extended histories (queries,
+     data.observed[...] = array, compute(observed=True) included) *)
+  Theorem settings_frame_extended (ops : list (@xop F)) (xw : @xworld F) (i : nat) :
+    wf (base xw) -> i < length (svs (base xw)) ->
+    (forall o, In o ops -> x_is_setter_on i o = false) ->
+    settings_at (base (xrun ltb off2 false ops xw)) i = settings_at (base xw) i.
+  Proof. exact (xsettings_frame_all ltb off2 ops xw i). Qed.
+
+  Theorem reachable_invariants_extended (ops : list (@xop F)) (xw : @xworld F) :
+    wf_all (base xw) -> wf_all (base (xrun ltb off2 false ops xw)).
+  Proof. exact (xrun_wf_all ltb off2 ops xw). Qed.
 End C13.
 
 (* ---- the unrepaired add_noise violates the frame property (witness on Q) *)
@@ -326,6 +399,35 @@ Example cut_nonvacuous :
   = [[[Some ((7%Z, 2%Z), (9%Z, 2%Z))]; [None]]].
 Proof. exact ex_cut. Qed.
 
+(* ---- round 6: the memoised mask is NOT an invariant copy of the current
+   mask, and a misfit summed through it differs from the misfit (witness on Q):
+   the property holds because misfit does not consult the memo *)
+Theorem misfit_through_memo_refuted :
+  exists (ops : list (@xop Q)) (xw : qxworld) (s : nat) (sv : @survey Q),
+    wf_all (base xw) /\ memo xw = [] /\
+    nth_error (svs (base (xrun qltb fx_off false ops xw))) s = Some sv /\
+    d_oq (misfit_through_memo (xrun qltb fx_off false ops xw) s sv)
+    <> d_oq (misfit (base (xrun qltb fx_off false ops xw)) sv 0%Z).
+Proof. exact through_memo_refuted. Qed.
+
+Example memo_can_be_stale :
+  memo_of fx_end 0 = Some [[[true; false]]] /\
+  cur_mask (deref (hdat (base fx_end)) 0) 1 1 2 = [[[true; true]]].
+Proof. exact fx_memo_stale. Qed.
+
+Example misfit_current_nonvacuous :
+  option_map d_oq (xmisfit fx_end 0) = Some (Some (5%Z, 2%Z)) /\
+  snd (xstep qltb fx_off false (XQuery 0 QMisfit) fx_end) = XMis (Some (5 # 2)%Q).
+Proof. exact fx_misfit_current. Qed.
+
+Example queries_erased_nonvacuous :
+  length (erase_queries fx_ops2) = 3%nat /\
+  length (memo (xrun qltb fx_off false fx_ops2 fx_xw)) = 2%nat /\
+  d_world (base (xrun qltb fx_off false fx_ops2 fx_xw))
+  = d_world (base (xrun qltb fx_off false (erase_queries fx_ops2) fx_xw)) /\
+  length (svs (base (xrun qltb fx_off false fx_ops2 fx_xw))) = 2%nat.
+Proof. exact fx_erasure_instance. Qed.
+
 Print Assumptions settings_frame.
 Print Assumptions wf_invariant.
 Print Assumptions copy_keeps_settings.
@@ -355,6 +457,15 @@ Print Assumptions misfit_summand.
 Print Assumptions misfit_skips_nan_observation.
 Print Assumptions misfit_perm_invariant.
 Print Assumptions misfit_axes_perm_invariant.
+Print Assumptions query_is_read_only.
+Print Assumptions operations_ignore_memo.
+Print Assumptions history_queries_erased.
+Print Assumptions misfit_does_not_consult_memo.
+Print Assumptions misfit_unaffected_by_queries.
+Print Assumptions misfit_current_arrays.
+Print Assumptions misfit_sums_over_current_mask.
+Print Assumptions settings_frame_extended.
+Print Assumptions reachable_invariants_extended.
 Print Assumptions settings_frame_refuted.
 Print Assumptions settings_frame_refuted_through_shared_selection.
 Print Assumptions settings_frame_nonvacuous.
@@ -364,3 +475,7 @@ Print Assumptions select_by_label_nonvacuous.
 Print Assumptions select_rejects_repeated_and_unknown_names.
 Print Assumptions cuts_spec_nonvacuous.
 Print Assumptions cut_nonvacuous.
+Print Assumptions misfit_through_memo_refuted.
+Print Assumptions memo_can_be_stale.
+Print Assumptions misfit_current_nonvacuous.
+Print Assumptions queries_erased_nonvacuous.
